@@ -245,7 +245,7 @@ def runTree (j : Json) : Except String Json := do
                             ("tree", Json.null)]
   | .ok out =>
     return obj [("exc", Json.null), ("flag", Json.bool out.flag),
-      ("sigs", ofList (fun (s : Flatland.C04.Sig) => Json.arr #[ofNats s.1, Json.bool s.2.1, elemJson s.2.2]) out.sigs),
+      ("sigs", ofList (fun (s : Flatland.C04.Sig) => Json.arr #[(match s.1 with | some p => ofNats p | none => Json.null), Json.bool s.2.1, elemJson s.2.2]) out.sigs),
       ("tree", elemJson out.elem)]
 
 def run (j : Json) : Except String Json := do
